@@ -7,6 +7,53 @@ VERIF = os.path.dirname(os.path.dirname(os.path.abspath(__file__)))
 props = [json.loads(l) for l in open(os.path.join(VERIF, "properties.jsonl"))]
 
 CLAIMED = {
+    "C02": dict(
+        category="proof",
+        text="Closed theorems: the wire law for one merge of compiled port sizes into the parameter map (the variable #p of every "
+             "wired target port holds exactly the compiled size at the other end, given single wiring; any carrier), a port "
+             "variable compiles to what the map holds, and port sizes are covered by the meaning theorem of C01 (go_natural). "
+             "Partial: the composition of these steps along the whole child loop into 'both ends of every connection are equal' is "
+             "checked on every case of the stream on the real compiled trees (all connections, all nodes, 4 rational points) and "
+             "against the bottom-up denotation, not proved end to end.",
+        design_ref="DESIGN.md section 5 C02",
+        note="Trusted: Coq kernel; compile model tied by the stream; declared sizes on outputs of routines with children are outside (finding F10, recorded in DESIGN.md).",
+        technique="Coq lemmas on the parameter map (wire law) + differential correspondence on all connections",
+    ),
+    "C03": dict(
+        category="proof",
+        text="Closed theorems: substituting a scope dictionary is invariant under any renaming injective on the scope, even onto "
+             "names occurring in the compiled values (subst_rename_scope); substitution and evaluation are equivariant under "
+             "injective renamings; the traversal is parametric in the carrier of compiled values, so compiled values are never "
+             "substituted into again (go_natural); evaluate reads assigned values in the original environment (evaluate_sound). "
+             "The hier-rename stream renames one random scope onto the shared name pool and compares the two real compilations "
+             "at every node. Partial: rename-invariance of the whole compile function (as opposed to each substitution it "
+             "performs) is exercised by that stream, not proved.",
+        design_ref="DESIGN.md section 5 C03",
+        note="Trusted: Coq kernel; compile/evaluate models tied by streams; iterator symbols are outside the renaming pool.",
+        technique="Coq alpha-invariance lemmas + parametricity of the traversal + differential renaming stream",
+    ),
+    "C04": dict(
+        category="proof",
+        text="Closed theorems about the substitution step every compiled expression goes through: for a well-scoped node every "
+             "symbol of the result comes from a value of the scope dictionary (no parameter, local, #port or child.resource key "
+             "survives); a total assignment of closed values leaves no symbol. The stream checks on every real compiled tree that "
+             "all symbols of all resources, sizes, repetition fields and retained constraints are among the node's and the "
+             "root's input_params. Partial: the induction over the tree (values of the dictionary are over top-level inputs) is "
+             "exercised by the stream, not proved.",
+        design_ref="DESIGN.md section 5 C04",
+        note="Trusted: Coq kernel; compile model tied by the stream; sympy free_symbols.",
+        technique="Coq free-variable lemmas for simultaneous substitution + closure check on real compiled trees",
+    ),
+    "C10": dict(
+        category="proof",
+        text="Closed theorem go_structure for an arbitrary carrier: every node of the result has the source node's name, type, "
+             "connections, ports with directions, resource names and types, and exactly the source's children in an order "
+             "consistent with the wiring. Preprocessing's additions (propagated additive/multiplicative resources, parameters) "
+             "are checked by the stream on the real compiled trees against the source (structure_ok).",
+        design_ref="DESIGN.md section 5 C10",
+        note="Trusted: Coq kernel; compile model tied by the stream; preprocessing stages modelled, not proved structure-preserving.",
+        technique="Coq structural induction on the traversal + structural comparison of real compiled trees with the source",
+    ),
     "C01": dict(
         category="proof",
         text="Closed theorem go_natural, for every carrier and every interpretation of the operators, every tree and depth: "
